@@ -595,3 +595,31 @@ func (c *Client) OwnerAt(ts int64) (int, error) {
 	err := c.Call("OwnerAt", &ts, &r)
 	return r, err
 }
+
+// AnchorsRsp is the chain service's answer to message.GetAnchors (what the syncer's finder starts from).
+type AnchorsRsp struct {
+	Hashes [][]byte
+	LastNo uint64
+	Err    string
+}
+
+func (s *Svc) Anchors(_ *Empty, r *AnchorsRsp) error { *r = *s.n.Anchors(); return nil }
+func (c *Client) Anchors() (*AnchorsRsp, error) {
+	var r AnchorsRsp
+	err := c.Call("Anchors", &empty, &r)
+	return &r, err
+}
+
+// AncestorRsp is the chain service's answer to message.GetAncestor (served to a synchronising peer).
+type AncestorRsp struct {
+	Hash []byte
+	No   uint64
+	Err  string
+}
+
+func (s *Svc) Ancestor(hashes *[][]byte, r *AncestorRsp) error { *r = *s.n.Ancestor(*hashes); return nil }
+func (c *Client) Ancestor(hashes [][]byte) (*AncestorRsp, error) {
+	var r AncestorRsp
+	err := c.Call("Ancestor", &hashes, &r)
+	return &r, err
+}
